@@ -4,7 +4,7 @@ from vlib import build
 
 SIZES = [1, 2, 3, 7, 8, 9, 15, 16, 24, 31, 32, 33, 63, 64, 65, 99, 100, 101, 127, 128, 255, 256, 257, 1000, 4096, 65535, 65536, 70000, 1 << 20]
 ALIGNS = [1, 2, 4, 8, 16, 32, 64, 128, 256, 4096]
-COMPS = list(range(1, 14))
+COMPS = list(range(1, 16))
 
 
 def gen_lines(rng, thorough):
@@ -68,7 +68,9 @@ def oracle(line, prev):
             if pl and (pl[0][0], pl[0][1][-1], pl[0][2], pl[0][3], pl[0][4]) != (l[0], l[1][-1], l[2], l[3], l[4]):
                 return 'release reached %s as %s(%d,%d,%d) but the allocation went to %s as %s(%d,%d,%d)' % (l[0], l[1], l[2], l[3], l[4], pl[0][0], pl[0][1], pl[0][2], pl[0][3], pl[0][4])
         comp = int(t[0])
-        want_t = comp in (2, 8, 9, 12, 13) or (comp == 10 and l[0] == 'L1')
+        want_t = comp in (2, 8, 9, 12, 13) or (comp == 10 and l[0] == 'L1') or (comp in (14, 15) and op[0] != 't')
+        if comp in (14, 15) and op[0] == 't' and trk:
+            return 'the tracker was told of an operation that the wrapped allocator refused'
         if want_t and len(trk) != 1:
             return 'the tracker saw a successful operation %d times' % len(trk)
         if not want_t and trk:
@@ -138,7 +140,7 @@ def run(ctx):
                     ctx.tie_broken.append('correspondence (%s): %s' % (c, ln[:300]))
     ctx.tie_broken = ctx.tie_broken[:6]
     ctx.cov.update(dict(
-        tie=dict(kind='(1) call shapes of tracked_allocator, aligned_allocator, allocator_storage, binary_segregator, memory_resource_adapter and std_allocator regenerated from the class templates (clang AST) and the obligation re-checked by vm_compute; (2) Exec: leaf and tracker call logs of thirteen real template compositions (depth 1..3: aligned, tracked, direct / reference / type-erased storage, thread_safe_allocator, reference storage with std::mutex, segregators, and their nestings), std_allocator over five value types (1 byte .. 70000 bytes, alignment 32), memory_resource_adapter, allocate_unique / allocate_shared / unique_base_ptr of a 70008-byte derived type compared with Compose.forward',
+        tie=dict(kind='(1) call shapes of tracked_allocator, aligned_allocator, allocator_storage, binary_segregator, memory_resource_adapter and std_allocator regenerated from the class templates (clang AST) and the obligation re-checked by vm_compute; (2) Exec: leaf and tracker call logs of fifteen real template compositions (depth 1..3, two of them over a leaf that refuses every composable request: aligned, tracked, direct / reference / type-erased storage, thread_safe_allocator, reference storage with std::mutex, segregators, and their nestings), std_allocator over five value types (1 byte .. 70000 bytes, alignment 32), memory_resource_adapter, allocate_unique / allocate_shared / unique_base_ptr of a 70008-byte derived type compared with Compose.forward',
                  configs=['base', 'dbg8'], cases=tot.get('total', 0), divergences=tot.get('diverged', 0), ops=ops),
         evaluations=n, distinct_nontrivial=len(set(lines)),
         rule='seeded requests: node and array, throwing and composable interface, sizes 1..1 MiB incl. both sides of thresholds 64/100 and of max_node_size 256, 65535/65536/70000, count 1 arrays, alignments 1..4096; each allocation line followed by the release with the same request; distinct = distinct request lines'))
